@@ -245,7 +245,7 @@ func l2SpecsMode(prop, tier, mode string, keep []string) ([]*eng.KernelSpec, *en
 		for pol, polName := range []string{"lowest-index-first", "highest-index-first", "any admissible order (solver choice per step)"} {
 			specs = append(specs, &eng.KernelSpec{Prop: prop, Name: pr.name + " [job order: " + polName + "]", Fixed: map[int]int64{9000: int64(pol)}, PkgDir: filepath.Join(corpus.ModDir, "flows"), PkgPath: pkg,
 				Entry: pr.entry, Program: P, GenMode: mode, GenKeep: keep, Fuel: 3000000, MaxStack: 40, AssertNames: pr.assert, CoverNames: pr.cover,
-				Setup: func(k *eng.Kernel) { eng.InstallL2(k, pkg) }})
+				Setup: func(k *eng.Kernel) { eng.InstallL2(k, pkg, prop == "C12") }})
 		}
 	}
 	return specs, corpus, nil
